@@ -300,6 +300,7 @@ def _c11(R, tier, seed):
     for i in range(8):
         gen.notations.append(gen.random_notation(2, f'g{i}'))
     E = G.ref_expand
+    binders = G.binder_notations(gen.notations)
 
     # (a) tie + transparency/reference semantics of single operations (same oracles as C12: the result, expanded,
     #     is the reference operation on the expansion), on patterns with and without notation
@@ -309,7 +310,14 @@ def _c11(R, tier, seed):
         notation = rng.choice([0.0, 0.3])
         p = gen.term(depth, notation=notation, subst=0.2, raw_inst=0.06 if notation else 0.0)
         op = rng.choice(['I', 'I', 'ES', 'SS'])
-        if op == 'I':
+        if op == 'I' and binders and rng.random() < 0.12:
+            prem, d, _x = G.subst_under_binder(rng, gen, binders)
+            args = PC.show(prem) + ' ' + PC.showd(d)
+        elif op == 'ES' and binders and rng.random() < 0.2:
+            nt, x = rng.choice(binders)
+            p = nt(*[('a', ('y', rng.choice(gen.syms)), ('e', x)) if rng.random() < 0.7 else gen.term(1) for _ in range(nt.arity)])
+            args = f'{PC.show(p)} {x} {PC.show(gen.term(1))}'
+        elif op == 'I':
             d = gen.delta(rng.choice([0, 1, 2]), notation=notation)     # partial and total maps, values mention metavariables
             args = PC.show(p) + ' ' + PC.showd(d)
         else:
